@@ -475,7 +475,7 @@ func mapUrlCases(c *runner.Ctx, k int, kd kindT) {
 				m := reflect.MakeMap(reflect.MapOf(reflect.TypeOf(""), kd.t))
 				x := code
 				for i := 0; i < k; i++ {
-					m.SetMapIndex(reflect.ValueOf(fmt.Sprintf("k%d", i)), reflect.ValueOf(kd.val(x % 3)))
+					m.SetMapIndex(reflect.ValueOf(fmt.Sprintf("k%d", i)), reflect.ValueOf(kd.val(x%3)))
 					x /= 3
 				}
 				return m
@@ -523,6 +523,160 @@ func mapUrlCases(c *runner.Ctx, k int, kd kindT) {
 
 var bothEqText string
 
+// GT: an either group, a botheq group and a plain rule in one object.
+type GT struct {
+	A string `valid:"either=1"`
+	B string `valid:"either=1"`
+	C string `valid:"botheq=2"`
+	D string `valid:"botheq=2"`
+	E string `valid:"required|need-E"`
+}
+
+// otherTerminator: the clause terminator is a package variable a caller may change. A group clause is a clause like
+// any other: with another terminator in force, the error is the one produced under the default terminator with every
+// terminator replaced (clause by clause, group member lists included), for struct, slice, map and URL input.
+func otherTerminator(c *runner.Ctx) {
+	vals := []string{"", "x", "y"}
+	rm := valid.RM{"A": "either=1", "B": "either=1", "C": "botheq=2", "D": "botheq=2", "E": "required|need-E"}
+	eps := []struct {
+		name string
+		run  func(v [5]string) error
+	}{
+		{"struct", func(v [5]string) error { return valid.Struct(&GT{v[0], v[1], v[2], v[3], v[4]}) }},
+		{"slice-of-structs", func(v [5]string) error {
+			return valid.Struct([]GT{{v[0], v[1], v[2], v[3], v[4]}, {v[1], v[0], v[3], v[2], v[4]}})
+		}},
+		{"map", func(v [5]string) error {
+			return valid.Map(map[string]string{"A": v[0], "B": v[1], "C": v[2], "D": v[3], "E": v[4]}, rm)
+		}},
+		{"url", func(v [5]string) error {
+			return valid.Url("http://h/p?A="+v[0]+"&B="+v[1]+"&C="+v[2]+"&D="+v[3]+"&E="+v[4], rm)
+		}},
+	}
+	for _, alt := range []string{" ## ", "\n", ";", " ; "} {
+		c.Space(fmt.Sprintf("clause-terminator-%q", alt))
+		for _, e := range eps {
+			for x := 0; x < 3*3*3*3*2; x++ {
+				if !c.Take() {
+					continue
+				}
+				v := [5]string{vals[x%3], vals[x/3%3], vals[x/9%3], vals[x/27%3], vals[x/81%2]}
+				var def, other error
+				pan, msg, site := runner.Guard(func() {
+					def = e.run(v)
+					old := valid.ErrEndFlag
+					valid.ErrEndFlag = alt
+					defer func() { valid.ErrEndFlag = old }()
+					other = e.run(v)
+				})
+				c.Done(true, 2)
+				det := map[string]interface{}{"entry_point": e.name, "values_A_B_C_D_E": v, "terminator": alt, "error_under_default_terminator": fmt.Sprint(def), "error_under_this_terminator": fmt.Sprint(other)}
+				if pan {
+					det["panic"] = msg
+					c.Violation("panic@"+site+"/other-terminator", det)
+					continue
+				}
+				if (def == nil) != (other == nil) {
+					c.Violation("other-terminator/verdict-differs", det)
+					continue
+				}
+				if def == nil {
+					c.Outcome("ok:nil")
+					continue
+				}
+				// clause by clause: the default error's clauses, and the other error split at the other terminator
+				want := canon(def.Error())
+				got := canon(strings.Join(strings.Split(other.Error(), alt), "; "))
+				if !eqs(want, got) || len(strings.Split(other.Error(), alt)) != len(strings.Split(def.Error(), "; ")) {
+					det["clauses_default"], det["clauses_other"] = strings.Split(def.Error(), "; "), strings.Split(other.Error(), alt)
+					c.Violation("other-terminator/clauses-differ", det)
+					continue
+				}
+				c.Outcome(fmt.Sprintf("ok:clauses=%d", len(want)))
+			}
+		}
+	}
+}
+
+// afterAbandonedCall: a call whose user-supplied function panics (the caller recovers, as an HTTP handler does) is
+// abandoned after its group members were collected. The group members of the abandoned call belong to that call: the
+// next call, on whatever entry point, reports its own groups only.
+func afterAbandonedCall(c *runner.Ctx) {
+	c.Space("call-after-a-call-abandoned-by-a-panicking-user-function")
+	boom := func(errBuf *strings.Builder, validName, objName, fieldName string, tv reflect.Value) {
+		panic("user function failed")
+	}
+	rmBoom := valid.RM{"A": "either=1", "B": "either=1", "C": "botheq=2", "D": "botheq=2", "E": "boom"}
+	rm := valid.RM{"A": "either=1", "B": "either=1", "C": "botheq=2", "D": "botheq=2", "E": "required|need-E"}
+	abandoned := []struct {
+		name string
+		run  func()
+	}{
+		{"struct", func() { valid.StructForFns(&GT{"", "", "x", "y", "e"}, rmBoom, valid.Name2FnMap{"boom": boom}) }},
+		{"map", func() {
+			valid.MapFn(map[string]string{"A": "", "B": "", "C": "x", "D": "y", "E": "e"}, rmBoom, valid.Name2FnMap{"boom": boom})
+		}},
+		{"url", func() { valid.NewVUrl().SetRule(rmBoom).SetValidFn("boom", boom).Valid("http://h/p?A=&B=&C=x&D=y&E=e") }},
+	}
+	next := []struct {
+		name string
+		run  func(v [5]string) error
+	}{
+		{"struct", func(v [5]string) error { return valid.Struct(&GT{v[0], v[1], v[2], v[3], v[4]}) }},
+		{"map", func(v [5]string) error {
+			return valid.Map(map[string]string{"A": v[0], "B": v[1], "C": v[2], "D": v[3], "E": v[4]}, rm)
+		}},
+		{"url", func(v [5]string) error {
+			return valid.Url("http://h/p?A="+v[0]+"&B="+v[1]+"&C="+v[2]+"&D="+v[3]+"&E="+v[4], rm)
+		}},
+	}
+	vals := [][5]string{{"x", "", "y", "y", "e"}, {"", "", "y", "y", "e"}, {"x", "x", "y", "z", "e"}, {"", "", "x", "y", ""}, {"a", "b", "", "", "e"}}
+	for _, ab := range abandoned {
+		for _, nx := range next {
+			for _, v := range vals {
+				for reps := 1; reps <= 2; reps++ {
+					if !c.Take() {
+						continue
+					}
+					var before, after error
+					panicked := 0
+					pan, msg, site := runner.Guard(func() {
+						before = nx.run(v)
+						for i := 0; i < reps; i++ {
+							func() {
+								defer func() {
+									if recover() != nil {
+										panicked++
+									}
+								}()
+								ab.run()
+							}()
+						}
+						after = nx.run(v)
+					})
+					c.Done(true, 2+reps)
+					det := map[string]interface{}{"abandoned_call": ab.name, "abandoned_calls": reps, "next_call": nx.name, "values_A_B_C_D_E": v, "result_before": fmt.Sprint(before), "result_after": fmt.Sprint(after)}
+					if pan {
+						det["panic"] = msg
+						c.Violation("panic@"+site+"/after-abandoned-call", det)
+						continue
+					}
+					if panicked != reps {
+						c.MarkIncomplete()
+						c.Note("the panicking user function did not run in the abandoned call")
+						continue
+					}
+					if !eqs(canon(fmt.Sprint(before)), canon(fmt.Sprint(after))) {
+						c.Violation("after-abandoned-call/groups-of-the-abandoned-call-reported", det)
+						continue
+					}
+					c.Outcome("ok")
+				}
+			}
+		}
+	}
+}
+
 func run(c *runner.Ctx) {
 	// texts of the rule-writing errors, taken from the model
 	type probe struct {
@@ -543,6 +697,8 @@ func run(c *runner.Ctx) {
 		maxK = 4
 	}
 	twoGroupsViaSet(c)
+	otherTerminator(c)
+	afterAbandonedCall(c)
 	for ki, kd := range kindsT {
 		for k := 2; k <= maxK; k++ {
 			if ki >= 2 && k > 3 && ki < 6 {
